@@ -39,6 +39,31 @@ class _ProcRec:
         return getattr(self._p, k)
 
 
+_BIN = None
+
+
+def fake_remote_bin():
+    """A directory with fake `ssh` and `rsync` executables, first on $PATH (no network needed):
+    `ssh go N id` exits N at once, `ssh wait N id` exits N when its stdin is closed."""
+    global _BIN
+    if _BIN is None:
+        import atexit
+        import shutil
+        import stat
+        import tempfile
+        os.makedirs('/tmp/C42', exist_ok=True)
+        _BIN = tempfile.mkdtemp(prefix='bin-', dir='/tmp/C42')
+        for name in ('ssh', 'rsync'):
+            f = os.path.join(_BIN, name)
+            with open(f, 'w') as fh:
+                fh.write('#!/bin/sh\nif [ "$1" = wait ]; then read x; fi\nexit $2\n')
+            os.chmod(f, os.stat(f).st_mode | stat.S_IEXEC | stat.S_IXGRP | stat.S_IXOTH)
+        os.environ['PATH'] = _BIN + os.pathsep + os.environ['PATH']
+        pid = os.getpid()
+        atexit.register(lambda: os.getpid() == pid and shutil.rmtree(_BIN, ignore_errors=True))
+    return _BIN
+
+
 def run_case(inp, drain=True):
     """Drive a real SubProcPool with real child processes.
 
@@ -66,6 +91,10 @@ def run_case(inp, drain=True):
         launched[cid] = p
         events.append(['start', cid])
         return _ProcRec(p, cid, polled)
+
+    def cb255(ctx, *a):
+        called.add(ctx.cid)
+        events.append(['cb', ctx.cid, 'host255'])
 
     def cb(ctx, *a):
         cid = ctx.cid
@@ -111,8 +140,11 @@ def run_case(inp, drain=True):
                 c = cmds[op[1]]
                 key = SubProcPool.JOBS_SUBMIT if c['submit'] else 'other-cmd'
                 kw = {}
+                remote = c.get('remote', False)
+                prog = ('ssh', 'rsync')[c['id'] % 2]       # both count as "remote" for the 255 handling
                 if c['kind'] == 'quick':
-                    cmd = ['sh', '-c', 'exit %d' % c['code'], str(c['id'])]
+                    cmd = ([prog, 'go', str(c['code']), str(c['id'])] if remote
+                           else ['sh', '-c', 'exit %d' % c['code'], str(c['id'])])
                 elif c['kind'] == 'bad':
                     cmd = ['/nonexistent/c42-no-such-command', str(c['id'])]
                 else:
@@ -123,11 +155,13 @@ def run_case(inp, drain=True):
                         os.close(w)
                     else:
                         wends.setdefault(c['id'], []).append(w)
-                    cmd = ['sh', '-c', 'read x; exit %d' % c['code'], str(c['id'])]
+                    cmd = ([prog, 'wait', str(c['code']), str(c['id'])] if remote
+                           else ['sh', '-c', 'read x; exit %d' % c['code'], str(c['id'])])
                     kw['stdin_files'] = [rf]
                 ctx = SubProcContext(key, cmd, **kw)
                 ctx.cid = c['id']
-                pool.put_command(ctx, callback=cb)
+                pool.put_command(ctx, bad_hosts=set(), callback=cb,
+                                 callback_255=cb255 if c.get('cb255') else None)
                 ops_out.append(list(op))
             elif k == 'proc':
                 pool.process()
@@ -207,8 +241,8 @@ def _impl_one(inp):
     return run_case(inp)
 
 
-def C(i, kind='quick', submit=False, code=0):
-    return {'id': i, 'submit': submit, 'kind': kind, 'code': code}
+def C(i, kind='quick', submit=False, code=0, remote=False, cb255=False):
+    return {'id': i, 'submit': submit, 'kind': kind, 'code': code, 'remote': remote, 'cb255': cb255}
 
 
 class C42(Prop):
@@ -226,6 +260,7 @@ class C42(Prop):
         'CylcModel.C42.drop_term_counterexample',
         'CylcModel.C42.terminate_quiescent',
         'CylcModel.C42.code_as_probed',
+        'CylcModel.C42.callback_255_instead',
         'CylcModel.C42.monitor_accepts',
         'CylcModel.C42.judge_accepts_sound',
     ]
@@ -241,7 +276,9 @@ class C42(Prop):
         '(Generated/SubProcFlags: dropStop / dropTerm) one_callback_partial needs: no terminate with a non-empty '
         'queue and no job-submit command queued when the pool is set stopping; drop_stop_counterexample / '
         'drop_term_counterexample refute the full statement for the unpatched flags; code_as_probed is the statement '
-        'for whichever flags translate() found. Refinement: monitor_accepts - the judge\'s monitor (own bookkeeping of '
+        'for whichever flags translate() found. callback_255_instead: the 255 callback is the single callback event of a '
+        'running ssh/rsync command that has one and exited 255 (never in addition to the ordinary callback - it is '
+        'counted by the same conservation law). Refinement: monitor_accepts - the judge\'s monitor (own bookkeeping of '
         'commands put / started / called back; rejects a second callback, an unknown command, more children alive '
         'than the pool size, a restart, a job-submit start once stopping) never rejects the model\'s events, for '
         'either flag setting and every history with distinct command ids; judge_accepts_sound - with no callback '
@@ -257,14 +294,17 @@ class C42(Prop):
         'callbacks are passive recorders (no re-entrant put_command from a callback)',
     ]
     unmodelled = [
-        'callback_255 / bad_hosts (ssh/rsync 255 handling), stdin feeding, output capture (_poll_proc_pipes), '
+        'bad_hosts bookkeeping and the rsync "test ssh connectivity" branch (non-255 rsync failure on a remote host) of '
+        'the 255 handling, callback arguments (callback_args / callback_255_args), stdin feeding, output capture (_poll_proc_pipes), '
         'SubProcPool.run_command (the synchronous class method), thread safety of set_stopping',
     ]
     rule = ('random command tables (quick / slow-until-released / hanging / unstartable; job-submit or not; exit codes), '
             'pool size 1-3, histories of put / process / clock advance past or short of the timeout / release / '
             'set_stopping / close / terminate, then driven to quiescence (release all, process + advance until not '
             'is_not_done); class = set of branches met (timeout, oserr, stopping refusal at put / in the queue, '
-            'terminate with queued / running commands, pool full)')
+            'terminate with queued / running commands, pool full); 40% of the commands are "remote" (cmd[0] = a fake ssh / '
+            'rsync on $PATH) with exit status 255 / 0 / 1, with or without a callback_255: class tags host255 (the 255 '
+            'callback fired) and 255-no-cb255 (255 reported through the ordinary callback)')
     workers = 16
 
     # ------------------------------------------------------------------
@@ -272,6 +312,7 @@ class C42(Prop):
         import cylc.flow.subprocpool as sp
         sp.LOG.setLevel(logging.CRITICAL + 10)
         self.sp = sp
+        fake_remote_bin()       # before the worker pool forks
 
     def translate(self):
         # probe 1: job-submit command queued, pool set stopping, process()
@@ -319,6 +360,14 @@ class C42(Prop):
              'ops': P(0) + [['proc'], ['stop']] + P(1, 2) + [['proc'], ['proc']]},
             # closed: everything refused at put
             {'size': 2, 'timeout': 100, 'cmds': [C(0), C(1, submit=True)], 'ops': [['close']] + P(0, 1) + [['proc']]},
+            # remote commands: 255 with / without a 255 callback, other exit status, 255 of a local command,
+            # a 255 met by terminate() and one refused while stopping
+            {'size': 2, 'timeout': 100,
+             'cmds': [C(0, code=255, remote=True, cb255=True), C(1, code=255, remote=True), C(2, code=1, remote=True, cb255=True),
+                      C(3, code=255, cb255=True), C(4, 'slow', code=255, remote=True, cb255=True),
+                      C(5, 'hang', code=255, remote=True, cb255=True), C(6, submit=True, code=255, remote=True, cb255=True)],
+             'ops': P(0, 1, 2, 3, 4, 5) + [['proc'], ['proc'], ['proc'], ['rel', 4], ['proc'], ['stop']] + P(6)
+             + [['adv', 101], ['proc']]},
             # terminate with running commands only
             {'size': 3, 'timeout': 100, 'cmds': [C(0, 'hang'), C(1, 'slow', code=4), C(2), C(3, submit=True)],
              'ops': P(0, 1, 2) + [['proc'], ['rel', 1], ['term']] + P(3)},
@@ -337,7 +386,10 @@ class C42(Prop):
         cmds = []
         for i in range(ncmd):
             kind = rng.choice(['quick', 'quick', 'quick', 'slow', 'slow', 'hang', 'bad'])
-            cmds.append(C(i, kind, submit=rng.random() < 0.45, code=rng.choice([0, 0, 1, 2, 7])))
+            remote = rng.random() < 0.4
+            code = rng.choice([255, 255, 0, 1]) if remote else rng.choice([0, 0, 1, 2, 7, 255])
+            cmds.append(C(i, kind, submit=rng.random() < 0.45, code=code, remote=remote,
+                          cb255=rng.random() < (0.55 if remote else 0.3)))
         style = rng.choice(['plain', 'stop', 'stop', 'close', 'term', 'term'])
         ops, toput = [], list(range(ncmd))
         rng.shuffle(toput)
@@ -407,7 +459,10 @@ class C42(Prop):
             tags.append('stop')
         else:
             tags.append('plain')
-        for k in ('timeout', 'oserr', 'killed', 'stopping'):
+        if any(c.get('remote') and c['code'] == 255 and not c.get('cb255') and ['cb', c['id'], 'exit:255'] in ev
+               for c in inp['cmds']):
+            tags.append('255-no-cb255')
+        for k in ('host255', 'timeout', 'oserr', 'killed', 'stopping'):
             if k in kinds:
                 tags.append(k)
         if any(row[1] > 0 and row[2] >= inp['size'] for row in obs['out']):
